@@ -43,7 +43,7 @@ def register(COMPONENTS, g):
     COMPONENTS["effects"] = comp_effects
 
     def comp_cst(tier, seed):
-        return comp_generic("cst", tier, seed, NPROC, [], "cst", 900 if tier == "quick" else 3000)
+        return comp_generic("cst", tier, seed, NPROC, ["-spok", os.path.join(BUILD, "spok")], "cst", 900 if tier == "quick" else 3000)
     COMPONENTS["cst"] = comp_cst
 
 
